@@ -36,6 +36,8 @@ import NxsModel.Lifecycle
 import NxsModel.Lemmas.Lifecycle
 import NxsModel.Lemmas.Config
 import NxsModel.Lemmas.ConfigExt
+import NxsModel.Lemmas.R7Config
+import NxsModel.Lemmas.R7ConfigCalls
 namespace Nxs.C07
 open Nxs Nxs.Config
 
@@ -340,5 +342,170 @@ example : AllAckCalls [{ op := .enable [-1] }, { op := .divider [1, -3] 5, now :
   rcases hk with rfl | rfl | rfl <;> refine ⟨?_, ?_⟩ <;> intro a b h <;> cases h <;> exact ⟨rfl, rfl⟩
 
 example : WFDev ⟨[false, true, false], [0, 0, 200]⟩ := by simp [WFDev]
+
+/-! ## Round 7 additions: an independent fold of the setter calls, all-channel calls, the frames of a write
+
+  `Config.cliSpec` (Lemmas/R7Config.lean) is a specification of the client side written without `setMany`, without the
+  device, the bytes and the frames: a setter assigns POINTWISE (`Config.assign`: position `i` gets the value iff `i` occurs
+  in the id list before the first out-of-range id), a write moves requested → acknowledged per request iff the request is
+  seen as acknowledged.  The theorems below tie the model to it for every history. -/
+
+/-- pointwise meaning of `ch_enable(chans)` / `ch_divider(chans, v)` on any state: channel `i` of the requested vector gets
+    the value iff `i` is named before the first out-of-range id (where Python raises `IndexError`, earlier assignments
+    kept); every other channel keeps its requested value; the call raises iff some id is out of range.
+    ∀ client state, id list, channel. -/
+theorem setter_pointwise (c : Client) (d : Device) (cs : List Nat) (v : Int) (i : Nat) (hv : 0 ≤ v ∧ v ≤ 255) :
+    ((step c d (.enable cs)).1.enNew[i]? =
+      if i ∈ cs.takeWhile (fun k => decide (k < c.enNew.length)) then c.enNew[i]?.map (fun _ => true) else c.enNew[i]?) ∧
+    ((step c d (.enable cs)).2.2.err = if ∀ k ∈ cs, k < c.enNew.length then none else some .indexError) ∧
+    ((step c d (.divider cs v)).1.divNew[i]? =
+      if i ∈ cs.takeWhile (fun k => decide (k < c.divNew.length)) then c.divNew[i]?.map (fun _ => v) else c.divNew[i]?) ∧
+    ((step c d (.divider cs v)).2.2.err = if ∀ k ∈ cs, k < c.divNew.length then none else some .indexError) := by
+  have hv' : ¬ (v < 0 ∨ v > 255) := by omega
+  refine ⟨?_, ?_, ?_, ?_⟩
+  · show (setMany c.enNew cs true).1[i]? = _
+    rw [setMany_fst, assign_getElem?]
+  · show (setMany c.enNew cs true).2 = _
+    exact setMany_snd _ _ _
+  · rw [step_divider, if_neg hv']
+    show (setMany c.divNew cs v).1[i]? = _
+    rw [setMany_fst, assign_getElem?]
+  · rw [step_divider, if_neg hv']
+    show (setMany c.divNew cs v).2 = _
+    exact setMany_snd _ _ _
+
+/-- REFINEMENT to the independent fold: after ANY history (any outcomes of the requests, any flags, any `WFDev` device)
+    the client state of the model is the fold of `cliSpec` over the calls. -/
+theorem client_is_fold (d0 : Device) (flags : Nat) (ops : List Op) (hd : WFDev d0) :
+    (after d0 flags ops).1 = ops.foldl cliSpec (Client.init d0 flags) :=
+  run_client (init_inv d0 flags hd) ops
+
+/-- "the state requested so far" is a function of the SETTER calls alone: the requested vectors after any history are
+    those of the history with every write erased — whatever the device answered, whatever the flags. -/
+theorem requested_ignores_writes (d0 : Device) (flags flags' : Nat) (ops : List Op) (hd : WFDev d0) :
+    reqOf (after d0 flags ops).1 = reqOf ((ops.filter notWrite).foldl cliSpec (Client.init d0 flags')) := by
+  rw [client_is_fold d0 flags ops hd]
+  exact foldl_req_erase _ _ ops rfl
+
+/-- `write_syncs` against the independent fold (closes the NOTE of `write_syncs`): once a write has returned in an
+    acknowledged history, the device's enable state (and, with divider support, divider state) is the pointwise fold of
+    the setter calls over the initial device state. -/
+theorem device_gets_setter_fold (d0 : Device) (flags : Nat) (ops : List Op) (hd : WFDev d0) (ha : AllAck ops) :
+    let r := after d0 flags (ops ++ [.write .ack .ack])
+    let req := reqOf ((ops.filter notWrite).foldl cliSpec (Client.init d0 flags))
+    r.2.1.en = req.1 ∧ r.1.enNow = req.1 ∧ r.1.copyEn = req.1 ∧
+    (Info.divSupported flags = true → r.2.1.div = req.2 ∧ r.1.divNow = req.2 ∧ r.1.copyDiv = req.2) := by
+  intro r req
+  have hw := write_syncs d0 flags ops hd ha
+  have hr := requested_ignores_writes d0 flags flags (ops ++ [.write .ack .ack]) hd
+  have hf : (ops ++ [Op.write .ack .ack]).filter notWrite = ops.filter notWrite := by
+    rw [List.filter_append]; simp [notWrite]
+  rw [hf] at hr
+  have h1 : r.1.enNew = req.1 := congrArg Prod.fst hr
+  have h2 : r.1.divNew = req.2 := congrArg Prod.snd hr
+  refine ⟨hw.1.trans h1, hw.2.1.trans h1, hw.2.2.1.trans h1, fun hs => ?_⟩
+  obtain ⟨e1, e2, e3⟩ := hw.2.2.2.1 hs
+  exact ⟨e1.trans h2, e2.trans h2, e3.trans h2⟩
+
+/-- the all-channel calls are the per-channel calls on every channel: `ch_enable_all()` = `ch_enable(range(n))`,
+    `ch_disable_all()` = `ch_disable(range(n))` (neither raises), and `channels_default_cfg()` = `ch_disable_all()` followed
+    by `ch_divider(range(n), 0)`; on any state. -/
+theorem all_is_each (c : Client) (d : Device) :
+    ((step c d .enableAll).1 = (step c d (.enable (List.range c.enNew.length))).1 ∧
+      (step c d (.enable (List.range c.enNew.length))).2.2.err = none) ∧
+    ((step c d .disableAll).1 = (step c d (.disable (List.range c.enNew.length))).1 ∧
+      (step c d (.disable (List.range c.enNew.length))).2.2.err = none) ∧
+    ((step c d .defaultCfg).1 =
+        (step (step c d .disableAll).1 d (.divider (List.range c.divNew.length) 0)).1 ∧
+      (step (step c d .disableAll).1 d (.divider (List.range c.divNew.length) 0)).2.2.err = none) := by
+  have hr : ∀ n : Nat, ∀ k ∈ List.range n, k < n := fun n k hk => List.mem_range.mp hk
+  refine ⟨⟨?_, ?_⟩, ⟨?_, ?_⟩, ⟨?_, ?_⟩⟩
+  · show { c with enNew := List.replicate c.enNew.length true } =
+      { c with enNew := (setMany c.enNew (List.range c.enNew.length) true).1 }
+    rw [setMany_fst, assign_range, List.map_const']
+  · show (setMany c.enNew (List.range c.enNew.length) true).2 = none
+    rw [setMany_snd, if_pos (hr _)]
+  · show { c with enNew := List.replicate c.enNew.length false } =
+      { c with enNew := (setMany c.enNew (List.range c.enNew.length) false).1 }
+    rw [setMany_fst, assign_range, List.map_const']
+  · show (setMany c.enNew (List.range c.enNew.length) false).2 = none
+    rw [setMany_snd, if_pos (hr _)]
+  · rw [step_divider, if_neg (by omega)]
+    show { c with enNew := List.replicate c.enNew.length false, divNew := List.replicate c.divNew.length 0 } =
+      { c with enNew := List.replicate c.enNew.length false,
+               divNew := (setMany c.divNew (List.range c.divNew.length) 0).1 }
+    rw [setMany_fst, assign_range, List.map_const']
+  · rw [step_divider, if_neg (by omega)]
+    show (setMany c.divNew (List.range c.divNew.length) 0).2 = none
+    rw [setMany_snd, if_pos (hr _)]
+
+/-- the frames of a write, at every point of every history and whatever the device does with them: none on a device
+    without channels; otherwise exactly one enable request (id 6), preceded by exactly one divider request (id 7) iff the
+    device advertises divider support. -/
+theorem write_frames_exact (d0 : Device) (flags : Nat) (ops : List Op) (a b : Outcome) (hd : WFDev d0) :
+    let r := after d0 flags ops
+    (step r.1 r.2.1 (.write a b)).2.2.sent.map (fun f => f.getD 3 0) =
+      if d0.en.length = 0 then [] else if Info.divSupported flags then [7, 6] else [6] := by
+  intro r
+  have hI : Inv r.1 r.2.1 :=
+    (run_induct Inv (fun _ => True) ops (fun _ _ op _ hP => ⟨step_inv hP op, trivial⟩) _ _
+      (init_inv d0 flags hd)).1
+  have hc : r.1 = ops.foldl cliSpec (Client.init d0 flags) := client_is_fold d0 flags ops hd
+  have hf := foldl_fixed (Client.init d0 flags) ops
+  have h1 : r.1.n = d0.en.length := by rw [hc]; exact hf.1
+  have h2 : r.1.divSupported = Info.divSupported flags := by rw [hc]; exact hf.2.1
+  have h := channelsWrite_ids hI a b
+  rw [h1, h2] at h
+  exact h
+
+/-- a redundant write is NOT silent on the wire: after an acknowledged write the next write re-sends the full requested
+    vectors (no channel differs, so the single-channel form is not chosen); `write_idempotent` says the device and the
+    client do not change.  (So "the frames of a write are exactly the changed channels" is false of the model and of
+    comm.py — `j == 1` is the only case with a single-channel request — and is not claimed by the property.) -/
+theorem redundant_write_sends_full_vectors (d0 : Device) (flags : Nat) (ops : List Op) (hd : WFDev d0)
+    (ha : AllAck ops) :
+    let r := after d0 flags (ops ++ [.write .ack .ack])
+    enRequest r.1 = .vec r.1.enNew ∧ (Info.divSupported flags = true → divRequest r.1 = .vec r.1.divNew) := by
+  intro r
+  have hw := write_syncs d0 flags ops hd ha
+  refine ⟨enRequest_vec r.1 ?_, fun hs => divRequest_vec r.1 ?_⟩
+  · rintro ⟨⟨k, hk⟩, -⟩
+    rw [hw.2.1, diffIdx_self] at hk
+    nomatch hk
+  · rintro ⟨⟨k, hk⟩, -⟩
+    rw [(hw.2.2.2.1 hs).2.1, diffIdx_self] at hk
+    nomatch hk
+
+/-- non-vacuity of the round-7 additions: the fold on a history with an out-of-range id (the ids before it are kept), a
+    write in the middle, an all-channel call; the frames of a write with / without divider support -/
+example : reqOf (([.enable [2, 7, 0], .write .ack .ack, .divider [1] 9, .disableAll, .enable [1]] : List Op).foldl cliSpec
+    (Client.init ⟨[false, false, false], [0, 0, 200]⟩ 3)) = ([false, true, false], [0, 9, 200]) := by decide +kernel
+
+example : (after ⟨[false, false, false], [0, 0, 200]⟩ 3
+    [.enable [2, 7, 0], .write .ack .ack, .divider [1] 9, .disableAll, .enable [1], .write .ack .ack]).2.1
+      = ⟨[false, true, false], [0, 9, 200]⟩ := by decide +kernel
+
+example : ((step (Client.init ⟨[false, true], [0, 0]⟩ 3) ⟨[false, true], [0, 0]⟩ (.write .lost (.nack 2))).2.2.sent.map
+    (fun f => f.getD 3 0)) = [7, 6] ∧
+    ((step (Client.init ⟨[false, true], [0, 0]⟩ 2) ⟨[false, true], [0, 0]⟩ (.write .lost (.nack 2))).2.2.sent.map
+    (fun f => f.getD 3 0)) = [6] := by decide +kernel
+
+/-- REFINEMENT for the public calls: for every rx padding, after ANY call history (Python ids — negative ones included —,
+    `writenow` wrappers, any outcomes of the requests) the client state is the fold of `callSpec`: the setter with its
+    ids normalised, then — `writenow=True` and no id out of range / divider out of 0..255 — a write. -/
+theorem calls_client_is_fold (pad : Nat) (d0 : Device) (flags : Nat) (ks : List Call) (hd : WFDev d0) :
+    (afterCalls pad d0 flags ks).1 = ks.foldl callSpec (Client.init d0 flags) :=
+  runCalls_client (init_inv d0 flags hd) pad ks
+
+/-- `padding_invisible` for the public calls: two rx paddings lead every call history (any outcomes) through the same
+    client and device states. -/
+theorem calls_padding_invisible (pad pad' : Nat) (d0 : Device) (flags : Nat) (ks : List Call) (hd : WFDev d0) :
+    (afterCalls pad d0 flags ks).1 = (afterCalls pad' d0 flags ks).1 ∧
+    (afterCalls pad d0 flags ks).2.1 = (afterCalls pad' d0 flags ks).2.1 :=
+  runCalls_pad (init_inv d0 flags hd) pad pad' ks
+
+example : (([{ op := .enable [-1] }, { op := .divider [1, -3] 5, now := some (.ack, .ack) },
+      { op := .enable [3], now := some (.ack, .ack) }] : List Call).foldl callSpec
+    (Client.init ⟨[false, true, false], [0, 0, 200]⟩ 3)).enNow = [false, true, true] := by decide +kernel
 
 end Nxs.C07
